@@ -60,6 +60,7 @@ S0(P) == [ pc   |-> [a \in Actors(P) |-> 1],
            oerun |-> [a \in Actors(P) |-> <<>>],       \* ghost: callbacks run so far
            dmn  |-> [a \in Actors(P) |-> FALSE],       \* daemon
            kt   |-> [a \in Actors(P) |-> -1],          \* kill time (absolute date), -1 = none
+           gr   |-> [a \in Actors(P) |-> FALSE],       \* MC granularity: the pending acquisition of a has been granted
            hoff |-> [a \in Actors(P) |-> FALSE],       \* host of actor a (one host per actor) is off
            loff |-> FALSE,                             \* the link is off
            now  |-> 0,
@@ -91,8 +92,9 @@ LockFor(P, s, a, m, r) ==
 UnlockBy(P, s, a, m) ==
   IF P.rec[m] /\ s.dep[m] > 1 THEN [s EXCEPT !.dep[m] = @ - 1]
   ELSE IF s.mq[m] = <<>> THEN [s EXCEPT !.own[m] = 0, !.dep[m] = 0]
-  ELSE LET b == Head(s.mq[m]) IN
-       Answer([s EXCEPT !.own[m] = b, !.dep[m] = 1, !.mq[m] = Tail(@)], b, s.pres[b])
+  ELSE LET b == Head(s.mq[m])
+           n == [s EXCEPT !.own[m] = b, !.dep[m] = 1, !.mq[m] = Tail(@)] IN
+       IF s.ph[b] = "blocked" THEN Answer(n, b, s.pres[b]) ELSE n    \* MC granularity: b has a MUTEX_WAIT pending
 
 \* ConditionVariableImpl::signal: the oldest waiter leaves the condition and turns into a locker of its mutex
 CvWake(P, s, c) ==
@@ -271,11 +273,13 @@ LocalRet(P, s, a) == LET op == Cur(P, s, a) IN
                           AnswerV(s, a, "true", IF h.r /\ s.act[h.c].st = "done" THEN s.act[h.c].pay ELSE 0)       \* an asynchronous operation returns a handle
 
 \* number of simcalls of an operation (run granularity): blocking put / get / exec = start + wait
-NSub(op) == IF op.op \in {"put", "get", "mput", "mget", "exec"} THEN 2 ELSE 1
+NSubP(P, op) == IF P.gran = "mc" THEN (IF op.op \in {"lock", "acq", "bar", "put", "get"} THEN 2 ELSE 1)
+               ELSE (IF op.op \in {"put", "get", "mput", "mget", "exec"} THEN 2 ELSE 1)
 
 \* ------------------------------------------------------------------ the kernel effect of a simcall
-\* Pre: s.ph[a] \in {"run","issued"} and s.pc[a] <= NOps(P,a) and ~s.aborted
-Handle(P, s, a) ==
+\* Run granularity (one simcall per blocking S4U call, as the code does outside the model checker)
+HandleRun(P, s, a) ==
+
   LET op == Cur(P, s, a)   k == op.op   o == op.o IN
   CASE k = "lock"    -> IF s.own[o] = a /\ ~P.rec[o] THEN Undef(s, a) ELSE LockFor(P, s, a, o, "ok")
     [] k = "trylock" ->
@@ -291,8 +295,9 @@ Handle(P, s, a) ==
          ELSE Block([s EXCEPT !.sq[o] = Append(@, a), !.tmr[a] = IF k = "acqt" THEN s.now + op.t ELSE -1], a, "sem", o, 0)
     [] k = "rel" ->
          IF s.sq[o] = <<>> THEN Answer([s EXCEPT !.val[o] = @ + 1, !.nrel[o] = @ + 1], a, "ok")
-         ELSE LET b == Head(s.sq[o]) IN
-              Answer(Answer([s EXCEPT !.sq[o] = Tail(@), !.nrel[o] = @ + 1, !.ngr[o] = @ + 1], b, "ok"), a, "ok")
+         ELSE LET b == Head(s.sq[o])
+                  n == [s EXCEPT !.sq[o] = Tail(@), !.nrel[o] = @ + 1, !.ngr[o] = @ + 1] IN
+              Answer(IF s.ph[b] = "blocked" THEN Answer(n, b, "ok") ELSE [n EXCEPT !.gr[b] = TRUE], a, "ok")
     [] k \in {"cvwait", "cvwaitfor"} ->
          IF s.own[op.p] # a THEN Abort(s, a)                 \* xbt_assert in do_wait / acquire_async
          ELSE LET u == UnlockBy(P, s, a, op.p) IN
@@ -350,9 +355,59 @@ Handle(P, s, a) ==
     [] k = "linkon"  -> Answer([s EXCEPT !.loff = FALSE], a, "ok")
     [] OTHER -> Abort(s, a)
 
+\* ------------------------------------------------------------------ MC granularity (what simgrid-mc explores)
+\* Under the model checker each blocking call is split for transition persistency: lock = MUTEX_ASYNC_LOCK + MUTEX_WAIT,
+\* acquire = SEM_ASYNC_LOCK + SEM_WAIT, barrier wait = BARRIER_ASYNC_LOCK + BARRIER_WAIT, put/get = COMM_ASYNC_SEND/RECV +
+\* COMM_WAIT.  A *_WAIT transition is enabled only when it can complete; nobody ever blocks; there is no time.
+Matched(s, c) == s.act[c].st \in {"run", "done"}
+EnabledMC(P, s, a) ==
+  LET op == Cur(P, s, a)   k == op.op   o == op.o IN
+  CASE k = "lock" /\ s.sub[a] = 2 -> s.own[o] = a
+    [] k \in {"acq", "bar"} /\ s.sub[a] = 2 -> s.gr[a]
+    [] k \in {"put", "get"} /\ s.sub[a] = 2 -> Matched(s, s.cur[a])
+    [] k = "wait" -> o <= Len(s.hnd[a]) /\ Matched(s, s.hnd[a][o].c)
+    [] OTHER -> TRUE
+RECURSIVE GrantAll(_, _)
+GrantAll(s, q) == IF q = <<>> THEN s ELSE GrantAll([s EXCEPT !.gr[Head(q)] = TRUE], Tail(q))
+WaitMC(P, s, a, c, r) == AnswerV([s EXCEPT !.act[c].st = "done"], a, "ok", IF r THEN s.act[c].pay ELSE 0)
+HandleMC(P, s, a) ==
+  LET op == Cur(P, s, a)   k == op.op   o == op.o IN
+  CASE k = "lock" ->
+         IF s.sub[a] = 2 THEN Answer(s, a, "ok")
+         ELSE IF s.own[o] = 0 THEN Answer([s EXCEPT !.own[o] = a, !.dep[o] = 1], a, "ok")
+         ELSE IF s.own[o] = a /\ P.rec[o] THEN Answer([s EXCEPT !.dep[o] = @ + 1], a, "ok")
+         ELSE IF s.own[o] = a THEN Undef(s, a)
+         ELSE Answer([s EXCEPT !.mq[o] = Append(@, a)], a, "ok")
+    [] k = "acq" ->
+         IF s.sub[a] = 2 THEN Answer([s EXCEPT !.gr[a] = FALSE], a, "ok")
+         ELSE IF s.val[o] > 0 THEN Answer([s EXCEPT !.val[o] = @ - 1, !.ngr[o] = @ + 1, !.gr[a] = TRUE], a, "ok")
+         ELSE Answer([s EXCEPT !.sq[o] = Append(@, a)], a, "ok")
+    [] k = "bar" ->
+         IF s.sub[a] = 2 THEN Answer([s EXCEPT !.gr[a] = FALSE], a, "ok")
+         ELSE IF Len(s.bq[o]) < P.bar[o] - 1 THEN Answer([s EXCEPT !.bq[o] = Append(@, a)], a, "ok")
+         ELSE Answer(GrantAll([s EXCEPT !.bq[o] = <<>>, !.bgen[o] = @ + 1, !.gr[a] = TRUE], s.bq[o]), a, "ok")
+    [] k = "put"  -> IF s.sub[a] = 1 THEN Answer(Isend(P, s, a, o, op.t, FALSE), a, "ok") ELSE WaitMC(P, s, a, s.cur[a], FALSE)
+    [] k = "get"  -> IF s.sub[a] = 1 THEN Answer(Irecv(P, s, a, o), a, "ok") ELSE WaitMC(P, s, a, s.cur[a], TRUE)
+    [] k = "wait" -> WaitMC(P, s, a, s.hnd[a][o].c, s.hnd[a][o].r)
+    [] k = "test" -> IF IsLocal(P, s, a) THEN LocalRet(P, s, a)
+                     ELSE LET c == s.hnd[a][o].c IN
+                          IF Matched(s, c) THEN AnswerV([s EXCEPT !.act[c].st = "done"], a, "true", IF s.hnd[a][o].r THEN s.act[c].pay ELSE 0)
+                          ELSE Answer(s, a, "false")
+    [] k = "sleep" -> Answer(s, a, "ok")
+    [] OTHER -> HandleRun(P, s, a)        \* trylock, unlock, rel, puta, putd, geta, yield: one simcall in both modes
+
+\* Pre: s.ph[a] \in {"run","issued"} and s.pc[a] <= NOps(P,a) and ~s.aborted
+Handle(P, s, a) == IF P.gran = "mc" THEN HandleMC(P, s, a) ELSE HandleRun(P, s, a)
+
 \* ------------------------------------------------------------------ time
 Ready(s, a)     == s.ph[a] \in {"run", "issued", "answered", "dying", "exiting"}
-SomeReady(P, s) == \E a \in Actors(P) : Ready(s, a)
+\* MC granularity: an actor can move iff its next transition is enabled (a pending *_WAIT may be disabled)
+MoreSub(P, s, a) == s.ph[a] = "answered" /\ s.res[a] = "ok" /\ s.sub[a] < NSubP(P, Cur(P, s, a))
+NextSub(P, s, a) == [s EXCEPT !.sub[a] = @ + 1, !.res[a] = "none", !.rval[a] = 0, !.ph[a] = "run"]
+CanMoveMC(P, s, a) == LET b == IF MoreSub(P, s, a) THEN NextSub(P, s, a) ELSE s IN
+                      \/ b.ph[a] \in {"run", "issued"} /\ EnabledMC(P, b, a)
+                      \/ s.ph[a] = "answered" /\ ~MoreSub(P, s, a)
+SomeReady(P, s) == IF P.gran = "mc" THEN \E a \in Actors(P) : CanMoveMC(P, s, a) ELSE \E a \in Actors(P) : Ready(s, a)
 TimerDates(P, s) == { s.tmr[a] : a \in { b \in Actors(P) : s.tmr[b] >= 0 } }
                     \cup { s.kt[a] : a \in { b \in Actors(P) : s.kt[b] >= 0 /\ Alive(s, b) } }
                     \cup { s.act[c].fin : c \in { x \in Running(s) : s.act[x].fin >= 0 } }
@@ -396,13 +451,10 @@ Ret(P, s, a) ==
                      !.res[a] = "none", !.rval[a] = 0, !.pc[a] = npc, !.sub[a] = 1, !.cur[a] = 0,
                      !.ph[a] = "run"] IN
   IF npc > NOps(P, a) THEN Terminate(P, n, a, "done") ELSE n
-\* an answered simcall that is not the last one of its operation: the actor goes on with the next simcall
-MoreSub(P, s, a) == s.ph[a] = "answered" /\ s.res[a] = "ok" /\ s.sub[a] < NSub(Cur(P, s, a))
-NextSub(P, s, a) == [s EXCEPT !.sub[a] = @ + 1, !.res[a] = "none", !.rval[a] = 0, !.ph[a] = "run"]
 
 \* EngineImpl::run reports a deadlock when nothing can happen any more and some actor is not finished
 Terminal(P, s)   == ~SomeReady(P, s) /\ TimerDates(P, s) = {} /\ Running(s) = {} /\ ~OnlyDaemons(P, s)
-Deadlocked(P, s) == ~s.aborted /\ Terminal(P, s) /\ \E a \in Actors(P) : s.ph[a] = "blocked"
+Deadlocked(P, s) == ~s.aborted /\ Terminal(P, s) /\ \E a \in Actors(P) : s.ph[a] \notin {"done", "dead", "unborn"}
 AllDone(P, s)    == \A a \in Actors(P) : s.ph[a] \in {"done", "dead", "unborn"}
 
 \* ------------------------------------------------------------------ properties (state predicates over (P, s))
